@@ -101,6 +101,7 @@ var recvKinds = []weighted{
 var rawKinds = []string{"binary", "empty-bytes", "empty-object", "array", "null", "truncated", "unknown-field", "amount-number", "reordered", "whitespace", "duplicate-key", "nested"}
 
 var mutKinds = []weighted{
+	{3, "evm-calls-disabled"},
 	{10, "params-off"}, {10, "toggle-pair"}, {10, "pause-token"}, {6, "unpause-token"}, {6, "suicide-token"}, {4, "receive-disabled"},
 	{4, "drain-module-tokens"}, {4, "evm-hook-off"},
 }
@@ -423,6 +424,9 @@ func (w *world) genSpec(r *rand.Rand, fullStack bool) *spec {
 		}
 		if dup {
 			continue
+		}
+		if fullStack && m == "evm-calls-disabled" {
+			continue // the full-stack layer needs the EVM for its own observations
 		}
 		if fullStack && m == "suicide-token" {
 			continue // irreversible; the persistent "dead" pair covers it in committed histories
